@@ -22,7 +22,7 @@ import BpProofs.OkSound
     * C01 for the NEWER schema relates that message to `m`.
 -/
 namespace Bp
-open Gen PermCopy
+open Gen
 
 /-! ### helpers -/
 
